@@ -194,4 +194,30 @@ theorem newConn_recorders (g : Global) (info : ConnInfo) (st : Bool) :
     · intro hd; cases hh : g.httpDetail <;> simp [hd, hh, LogRec.setDetail]
     · intro hd; cases ha : g.apiDetail <;> simp [hd, ha, LogRec.setDetail]
 
+/-! ### WBEMConnection.copy() -/
+
+theorem addCopies_fields (g : Global) : ∀ (rs : List Recorder) (c : Conn),
+    (addCopies g c rs).1.info = c.info ∧ (addCopies g c rs).1.lastSrvTime = c.lastSrvTime
+  | [], _ => ⟨rfl, rfl⟩
+  | r :: rs, c => by
+    simp only [addCopies]
+    have h1 := sbr_addRecorder { c with recorders := c.recorders.filter (fun x => !sameClass r x) } (copyRec g r)
+    have ih := addCopies_fields g rs
+      ({ c with recorders := c.recorders.filter (fun x => !sameClass r x) }.addRecorder (copyRec g r)).1
+    exact ⟨ih.1.trans h1.1, ih.2.trans h1.2.1⟩
+
+theorem newConn_fields (g : Global) (info : ConnInfo) (st : Bool) :
+    (newConn g info st).1.info = info ∧ (newConn g info st).1.lastSrvTime = .none := by
+  simp only [newConn]
+  split
+  · exact ⟨rfl, rfl⟩
+  · exact ⟨rfl, rfl⟩
+
+theorem copyConn_fields (g : Global) (c : Conn) :
+    (copyConn g c).1.info = c.info ∧ (copyConn g c).1.lastSrvTime = .none := by
+  simp only [copyConn]
+  obtain ⟨a, b⟩ := addCopies_fields g c.recorders (newConn g c.info c.stats.enabled).1
+  obtain ⟨x, y⟩ := newConn_fields g c.info c.stats.enabled
+  exact ⟨a.trans x, b.trans y⟩
+
 end Proofs.Lemmas.LogConfig
